@@ -109,8 +109,8 @@ def check(P, rep):
             rep.check(ok, 'C06.R1', '%s::%s:%s:%s' % (cn, en, e.kind, role), what, esite(g, e),
                       'auth sites: %d; stale-read auth sites ignored: %d' % (len(nodes), len(stale)), w)
         inv['roles'] = sorted(inv['roles'])
-    rep.floor('entry points analysed', n_entries, 99)
-    rep.floor('protected admin effects found', n_prot, 30)
+    rep.floor('entry points analysed', n_entries, 90)
+    rep.floor('protected admin effects found', n_prot, 25)
     # R3: gateway rotation path: delay guard or operator auth
     if 'rotate_signers' in P.crates['axelar_gateway'].entries:
         g = P.graph('axelar_gateway', 'rotate_signers')
@@ -150,5 +150,5 @@ def is_elapsed(t):
         return False
     last = alts(b[3])
     reads = [x for x in last if is_sget(x, 'instance', 'LastRotationTimestamp')]
-    consts = [x for x in last if const_int(x) == 0]
+    consts = [x for x in last if is_zero(x)]
     return len(reads) >= 1 and len(reads) + len(consts) == len(last)
